@@ -220,7 +220,7 @@ func (g *Gen) name() string { return names[g.rnd.Intn(len(names))] }
 // ... 9223371974719179008 is the first second that time.Unix wraps to the distant past (MaxInt64 - 62135596800 + 1)
 var secsPool = []int64{0, 1, 5, 5, 5, 5, 5, 10, 10, 10, 10, 100, 1000, 253402300799, -1, -62135596800,
 	9223371974719179007, 9223371974719179008, 9223372036854775807, -9223372036854775808, 1790000000, 1790000000}
-var nanosPool = []int64{0, 0, 1, 500, 200000000, 800000000, 999999999, -1, 1500000000}
+var nanosPool = []int64{0, 0, 1, 500, 200000000, 800000000, 999999999, -1, 1500000000, 1000000000, -500000000, 2147483647, -2147483648}
 
 func f32(x float64) string { return strconv.FormatFloat(x, 'g', -1, 32) }
 
